@@ -233,6 +233,8 @@ SIG = {
     'pubkey_verify': ('keys.py', 'PublicKey.verify',
                       [('hashlib_sha256', 'Bytes → Bytes'), ('b64decode', 'Bytes → Except PyErr Bytes'),
                        ('verify_digest', 'Bytes → Bytes → Except PyErr Bool'), ('signature', 'Bytes'), ('message', 'Bytes')], 'Bool'),
+    # utils.is_address_bech32: bech32.py's bech32_decode (translated) finds a human-readable part
+    'is_address_bech32': ('utils.py', 'is_address_bech32', [('address', 'List Char')], 'Bool'),
     # segwit address objects: bech32.py's decode / encode (translated above) under the configured network's prefix (a parameter)
     'segwit_address_to_hash': ('keys.py', 'SegwitAddress._address_to_hash',
                                [('segwit_hrp', 'List Char'), ('self_segwit_num_version', 'Int'), ('address', 'List Char')], 'Bytes'),
@@ -306,6 +308,7 @@ STRFUNS = {'bech32_encode': {'combined': 'List Int'},
            'segwit_encode': {'spec': 'Int', 'ret': 'List Char'},
            'pubkey_from_hex': {'first_byte_in_hex': 'List Char', 'y_values': 'List Int'},
            'is_hash160_valid': {}, 'address_init_hash160': {}, 'pubkey_get_address': {'addr_string_hex': 'List Char'},
+           'is_address_bech32': {'hrp': 'Option (List Char)'},
            'segwit_address_to_hash': {'witness_version': 'Option Int', 'witness_int_array': 'Option (List Int)'},
            'segwit_to_string': {'witness_int_array': 'List Int'}, 'segwit_init': {'segwit_num_version': 'Int'},
            'pubkey_get_segwit_address': {}}
@@ -598,6 +601,8 @@ class Tr:
                 if s.pre: s.fail(n, 'effects inside any()/all()')
                 s.pre = saved
                 return f'(List.{f} {it} (fun {v} => {c}))'
+            if f == 'bech32_decode' and s.name == 'is_address_bech32' and len(a) == 1 and not n.keywords:
+                return s.eff(f'bech32_decode {s.e(a[0])}')
             if f in STR_CALLS:
                 nm, opt = STR_CALLS[f]
                 t = s.eff(f'{nm} ' + ' '.join(s.str_args(n)))
@@ -1849,6 +1854,13 @@ class Tr:
                 out = s.flush(ind)
                 for x, pt in zip(tg.elts, parts): out.append(f'{ind}{x.id} := {pt}')
                 return out
+            if (isinstance(tg, ast.Tuple) and all(isinstance(x, ast.Name) for x in tg.elts) and any(x.id == '_' for x in tg.elts)
+                    and s.name == 'is_address_bech32'):
+                # `a, _, _ = f(x)`: the named components only
+                v = s.e(st.value)
+                k = len(tg.elts)
+                proj = lambda i: ('.2' * i) + ('.1' if i < k - 1 else '')
+                return s.flush(ind) + [f'{ind}{x.id} := {v}{proj(i)}' for i, x in enumerate(tg.elts) if x.id != '_']
             if isinstance(tg, ast.Tuple) and all(isinstance(x, ast.Name) for x in tg.elts):
                 # all targets were declared up front by hoist()
                 v = s.e(st.value)
@@ -2230,7 +2242,7 @@ class Tr:
             if isinstance(st, ast.Assign) and len(st.targets) == 1 and isinstance(st.targets[0], ast.Tuple):
                 kinds = s.tuple_kinds(st.value, len(st.targets[0].elts)) if (s.name in PARSERS or s.name in TREEFUNS) else None
                 for j, x in enumerate(st.targets[0].elts):
-                    if isinstance(x, ast.Name) and x.id not in s.declared:
+                    if isinstance(x, ast.Name) and x.id not in s.declared and x.id != '_':
                         # tuple targets: integers (the callees in the whitelist return tuples of ints) unless the callee says otherwise
                         kd = kinds[j] if kinds and j < len(kinds) else 'int'
                         if kd == 'bytes':
